@@ -10,7 +10,7 @@ PROP, LEVEL = 'C08', 'exploration'
 
 
 def corpus(tier, seed):
-    n = 90 if tier == 'quick' else 1500
+    n = 180 if tier == 'quick' else 1500
     cases = []
     for i in range(n):
         r = gen.seeded(seed, 'C08c', i)
